@@ -120,6 +120,39 @@ var interposeSites = []string{
 	"phase:checkpoint_verify_restart", "phase:checkpoint_snapshot_boundary_lock", "phase:checkpoint_snapshot_boundary",
 	"replica:before_upload", "client:write", "client:list", "client:open", "snapshot:before_write",
 	"db:close_synced", "compact:before_write",
+	"sql:begin", "sql:rollback", "sql:insert:lock", "sql:insert:seq", "sql:select:seq", "sql:pragma:wal_checkpoint",
+}
+
+// sqlSites are the statement-level scheduling points of litestream's own
+// connection (see sqlseam.go).
+var sqlSites = []string{"sql:begin", "sql:rollback", "sql:insert:lock", "sql:insert:seq", "sql:select:seq", "sql:pragma:wal_checkpoint"}
+
+// genBusyWindow emits an application write transaction that is left open, then a
+// litestream operation during which - right before one of litestream's own SQL
+// statements - the application ends that transaction: litestream meets
+// SQLITE_BUSY on some statements and success on later ones (the interleavings a
+// busy handler's sleep allows).
+func genBusyWindow(r *Rng, cfg *Config, lsW []int) []Op {
+	hold := genTxn(r, cfg)
+	hold.K = "hold_begin"
+	hold.Rollback = false
+	op := genLSOp(r, cfg, lsW)
+	for op.Kind == "sleep" {
+		op = genLSOp(r, cfg, lsW)
+	}
+	if r.Chance(0.4) {
+		op = Op{Kind: "ls_ckpt", Mode: ckptModes[r.Pick([]int{5, 2, 2, 4})]}
+	}
+	end := Step{K: "hold_commit"}
+	if r.Chance(0.25) {
+		end = Step{K: "hold_rollback"}
+	}
+	ip := Interpose{Site: PickOf(r, sqlSites), Nth: r.Pick([]int{4, 4, 2, 1}) + 1, Steps: []Step{end}}
+	if r.Chance(0.3) {
+		ip.Steps = append(ip.Steps, genAppStep(r, cfg))
+	}
+	op.Interpose = append(op.Interpose, ip)
+	return []Op{appOp(hold), op, appOp(Step{K: "hold_commit"})}
 }
 
 func genInterpose(r *Rng, cfg *Config) Interpose {
